@@ -157,6 +157,9 @@ func (c *ctx) generic() {
 			if k := strings.Index(site, ":"); k > 0 {
 				site = site[:k]
 			}
+			if site == "packet" {
+				c.v("C04/decoded-bytes-not-from-input", "conn %d step %d: %s", e.Conn, e.A, e.S)
+			}
 			for _, id := range []string{"C01", "C02"} {
 				c.vs(id+"/decode-depends-on-receiver", site, "conn %d step %d: decoding the same bytes gives a different value when the receiver was used before: %s", e.Conn, e.A, e.S)
 			}
